@@ -152,6 +152,22 @@ add("C18", "e_netsim", "exploration",
     "Destination -> host is a function because generated hosts have unique addresses. The real socket send/receive path is bypassed by the hook (covered by the black-box engine).",
     "DESIGN.md §6 C18")
 
+add("C09", "e_blackbox", "exploration",
+    "runtime monitoring of the real binary over loopback sockets: exactly-once accounting per (socket, ID), framing rules, differential against the in-process resolver",
+    "The release `resolved` binary is started in authoritative-only mode and with recursion offered (forwarder on a closed port); 8 client threads, each owning its sockets and issuing strictly increasing IDs, send ~3*10^5 messages (quick): "
+    "zone questions (large RRsets, alias chains and loops, wildcards, delegation, NXDOMAIN, hosts, unanswerable) x 11 qtypes x RD, every qtype and 8 classes, QDCOUNT 0..3, 0..11-byte datagrams, all 65536 flag-octet values, generated messages incl. responses, random and mutated queries; "
+    "over TCP additionally the maximal pointer chain, huge counts, 64 KiB messages and five framing variants. Every message must get exactly one reply (none for QR=1 / <2 bytes) with the rules of the statement checked from the bytes sent; UDP reply = TCP reply cut at 512 with TC; "
+    "TCP prefix = length; sections, AA and RCODE = dns_resolver::resolve on the same files in process; answer-section structure; the process must stay up (liveness per chunk, exit status, stderr).",
+    "Parseability is decided by the harness's own decoder. Missing UDP replies are retransmitted up to 3 times before they count. A TCP connection reset caused by bytes the server never read makes that single case inconclusive. Known finding: delegation NS set in the answer section (known_findings.json).",
+    "DESIGN.md §6 C09")
+add("C19", "e_blackbox", "exploration",
+    "runtime monitoring of the real binary: generation-tagged configurations, SIGUSR1 reloads under query load, offline check of the timed query log against the generations that can have been in force",
+    "The release binary runs with explicit zone files, a -Z directory, a hosts file and a -A directory. Every RDATA carries a generation number, names exist only in their generation, and an alias in one file targets a name that exists only in the same generation of another file (a mixed read shows inside one answer). "
+    "25 (quick) / 1500 (thorough) steps rewrite all files (temp+rename, only between reloads) or break the configuration (bad file, dangling symlink, listed file removed), then send 1..3 SIGUSR1; 8 client threads query 7 probes throughout over UDP and TCP with send/receive times; the server's 'received'/'done' lines are time-stamped on arrival. "
+    "Every answer must be that of one generation that can have been in force between send and receive; after 'done - success' only the new one, after 'done - failure' only the old one; no mixed answers, no unanswered query, the process stays up. A 30k-record file makes reloads take ~0.1-0.2 s so that tens of thousands of queries overlap reloads.",
+    "Schedule coverage is what the stress produced (overlapping queries are counted in the evidence). With the zones lock held across a whole request a mixed answer needs a code change; the window is then microseconds wide and is hit with high probability, not certainty.",
+    "DESIGN.md §6 C19")
+
 UNDER_CONSTRUCTION = "check not built yet in this revision (see DESIGN.md §6); the technique applies, this is not a claim of inapplicability"
 
 ALL = ["C%02d" % i for i in range(1, 20)]
